@@ -7,7 +7,8 @@ Import ListNotations.
 Open Scope Z_scope.
 
 (* one observed result: nil error + canonical dump / error / recovered panic *)
-Inductive ob := OOk (v : gval) | OErr | OPanic.
+Inductive ob := OOk (v : gval) | OErr | OPanic
+              | OShared.   (* accepted, but two positions of the decoded value share one cell (pointer / map / slice) *)
 Record ob3 := mkOb3 { oj : ob; oy : ob; ot : ob }.
 
 (* the tree a front end handed to LoadFromJsonBytes (None: the front end rejected the text) *)
@@ -27,7 +28,7 @@ Record extra := mkExtra { x_byext : list (string * ob); x_must : list (string * 
                           x_lc : option jv; x_lc2 : option jv }.
 
 (* a decoded value of a type outside C08's model: its canonical dump, compared as text *)
-Inductive obx := XOk (dump : string) | XErr | XPanic.
+Inductive obx := XOk (dump : string) | XErr | XPanic | XShared.
 Record obx3 := mkObx3 { xj : obx; xy : obx; xt : obx }.
 
 Inductive case :=
@@ -50,11 +51,13 @@ Definition ob_of (r : result gval) : ob :=
 Definition ob_eqb (a b : ob) : bool :=
   match a, b with
   | OOk v, OOk w => gval_eqb v w
-  | OErr, OErr | OPanic, OPanic => true
+  | OErr, OErr | OPanic, OPanic | OShared, OShared => true
   | _, _ => false
   end.
 
-Definition ob_panics (a : ob) : bool := match a with OPanic => true | _ => false end.
+(* neither an error nor a proper value: a panic, or a value with ALIASED positions (a decoder owes
+   every position its own cell; the model's values are trees) *)
+Definition ob_panics (a : ob) : bool := match a with OPanic | OShared => true | _ => false end.
 
 Fixpoint jv_eqb (a b : jv) {struct a} : bool :=
   match a, b with
@@ -97,10 +100,10 @@ Definition opt_all {A} (o : option A) (f : A -> bool) : bool := match o with Som
 Definition obx_eqb (a b : obx) : bool :=
   match a, b with
   | XOk v, XOk w => String.eqb v w
-  | XErr, XErr | XPanic, XPanic => true
+  | XErr, XErr | XPanic, XPanic | XShared, XShared => true
   | _, _ => false
   end.
-Definition obx_panics (a : obx) : bool := match a with XPanic => true | _ => false end.
+Definition obx_panics (a : obx) : bool := match a with XPanic | XShared => true | _ => false end.
 Definition obx3_eqb (a b : obx3) : bool := obx_eqb (xj a) (xj b) && obx_eqb (xy a) (xy b) && obx_eqb (xt a) (xt b).
 Definition obx3_same (a : obx3) : bool := obx_eqb (xj a) (xy a) && obx_eqb (xj a) (xt a).
 Definition obx3_nopanic (a : obx3) : bool := negb (obx_panics (xj a) || obx_panics (xy a) || obx_panics (xt a)).
@@ -254,11 +257,11 @@ Definition prop_gen (same3 : ob3 -> bool) (c : case) : bool :=
               for the document and for its re-cased twin *)
            && match x_lc x, x_lc2 x with Some a, Some b => jv_eqb a b | _, _ => true end)
     | CaseStd T d mp st =>
-      match mp, st with
-      | OOk v, OOk w => gval_eqb v w
-      | OPanic, _ | _, OPanic => false
-      | _, _ => true
-      end
+      negb (ob_panics mp || ob_panics st)
+      && match mp, st with
+         | OOk v, OOk w => gval_eqb v w
+         | _, _ => true
+         end
     | CaseShape T d d2 info lc lc2 load load2 =>
       opt_all load (fun l => obx3_nopanic l && obx3_same l)
       && match load, load2 with Some l, Some l' => obx3_nopanic l' && obx3_eqb l l' | _, _ => true end
